@@ -271,6 +271,22 @@ def check_corpus(corpus, fails, counts):
                         if rest != exp:
                             fail("C11-after-skip", "after skip_to(%d): %r expected %r" % (t, rest, exp))
                             break
+                # what is read at an entry does not depend on how it was reached: weight() by stepping vs by skip_to
+                if scored:
+                    wstep = {}
+                    m = mk()
+                    try:
+                        while m.is_active() and len(wstep) < 200:
+                            wstep[m.id()] = m.weight()
+                            m.next()
+                    except NotImplementedError:
+                        wstep = None        # ArrayUnionMatcher refuses weight(): a refusal is not a wrong answer
+                    for d in (refids if wstep is not None else ()):
+                        m = mk()
+                        m.skip_to(d)
+                        if m.weight() != wstep.get(d):
+                            fail("C11-weight-path", "weight() at %d is %r after skip_to, %r by stepping" % (d, m.weight(), wstep.get(d)))
+                            break
                 # mid-list skip_to + copy + reset + replace(0)
                 copy_unsupported = False
                 for j in range(len(refids)):
